@@ -1,0 +1,7 @@
+//go:build !verif
+
+package mqtt
+
+// verifYield marks a scheduling point for the verification harness.
+// Without the verif build tag it compiles to nothing.
+func verifYield(site string) {}
